@@ -17,6 +17,31 @@ func (c *Ctx) term(v ssa.Value, depth int) string {
 	if depth > 24 {
 		return "..."
 	}
+	if c.termMemo == nil {
+		c.termMemo = map[ssa.Value]string{}
+	}
+	if s, ok := c.termMemo[v]; ok {
+		return s
+	}
+	if c.termBusy == nil {
+		c.termBusy = map[ssa.Value]bool{}
+	}
+	if c.termBusy[v] {
+		return "<loop>"
+	}
+	c.termBusy[v] = true
+	s := c.term1(v, depth)
+	delete(c.termBusy, v)
+	if len(s) > 6000 {
+		s = s[:6000] + "...<truncated>"
+	}
+	if depth <= 12 && !strings.Contains(s, "<loop>") {
+		c.termMemo[v] = s
+	}
+	return s
+}
+
+func (c *Ctx) term1(v ssa.Value, depth int) string {
 	switch x := v.(type) {
 	case *ssa.Parameter:
 		for i, p := range x.Parent().Params {
@@ -342,10 +367,20 @@ func (c *Ctx) constValue(pkg, name string) int64 {
 // kernelTerm: the single returned expression of a thin wrapper such as ops.Add.
 func (c *Ctx) kernelTerm(k *ssa.Function) string {
 	rets := returnsOf(k)
-	if len(rets) != 1 {
+	if len(rets) == 1 {
+		return c.term(rets[0].Results[0], 0)
+	}
+	// several returns: the success return is the one whose first result is not the nil constant
+	var succ []*ssa.Return
+	for _, r := range rets {
+		if len(r.Results) > 0 && !isNilConst(r.Results[0]) {
+			succ = append(succ, r)
+		}
+	}
+	if len(succ) != 1 {
 		return "<multiple returns>"
 	}
-	return c.term(rets[0].Results[0], 0)
+	return c.term(succ[0].Results[0], 0)
 }
 
 // checkBinaryDriver: broadcast(A,B) in order on the selected mode, then op(A', B') in order.
